@@ -808,6 +808,63 @@ pub fn run_w3(ctx: &Ctx, nslots: usize, cycles: u64, mode: u8, cov: &mut Cov) ->
                 return v;
             }
         }
+        #[cfg(feature = "deser")]
+        if ctx.is("C16") {
+            let r = cyc % 32768;
+            let near_wrap = r <= 40 || r >= 32768 - 40;
+            if cyc % 1024 == 0 || near_wrap {
+                for fmt in ["json", "positional"] {
+                    let rt = guarded(|| -> Result<Arena<Plain>, String> {
+                        if fmt == "json" {
+                            let s = serde_json::to_string(&arena).map_err(|e| e.to_string())?;
+                            serde_json::from_str(&s).map_err(|e| e.to_string())
+                        } else {
+                            let b = crate::posfmt::to_bytes(&arena).map_err(|e| e.to_string())?;
+                            crate::posfmt::from_bytes(&b).map_err(|e| e.to_string())
+                        }
+                    });
+                    let copy = match rt {
+                        Ok(Ok(c)) => c,
+                        Ok(Err(e)) => return viol(&format!("serde-{}-error", fmt), e, cyc),
+                        Err(p) => return viol(&format!("serde-{}-panic", fmt), p, cyc),
+                    };
+                    if copy != arena {
+                        return viol(&format!("serde-{}-not-equal", fmt), format!("round trip of an arena whose slot was re-issued {} times is not equal to the original", recycles[hist[cur[k]].1]), cyc);
+                    }
+                    // every id ever issued behaves the same on the copy (sampled), then a common continuation
+                    let n = hist.len();
+                    for i in (0..n).step_by((n / 64).max(1)).chain(n.saturating_sub(4)..n) {
+                        let id = hist[i].0;
+                        if id.is_removed(&copy) != id.is_removed(&arena) {
+                            return viol(&format!("serde-{}-is_removed", fmt), format!("is_removed of id #{} differs on the round-tripped copy", i), cyc);
+                        }
+                    }
+                    let mut a2 = arena.clone();
+                    let mut b2 = copy;
+                    let mut x = hist[cur[k]].0;
+                    for step in 0..4 {
+                        let r = guarded(|| {
+                            x.remove(&mut a2);
+                            x.remove(&mut b2);
+                            let na = a2.new_node(Plain { tid: 77, val: step });
+                            let nb = b2.new_node(Plain { tid: 77, val: step });
+                            (na, nb)
+                        });
+                        match r {
+                            Ok((na, nb)) => {
+                                if na != nb || a2 != b2 {
+                                    return viol(&format!("serde-{}-continuation", fmt), format!("original and round-tripped copy diverge under a common continuation (ids {:?} vs {:?})", na, nb), cyc);
+                                }
+                                x = na;
+                            }
+                            Err(p) => return viol(&format!("serde-{}-continuation-panic", fmt), p, cyc),
+                        }
+                    }
+                    evals += 6;
+                }
+                cov.bump("round_trips_in_generation_churn");
+            }
+        }
         if own7 {
             evals += 1;
             // bystanders untouched
